@@ -366,7 +366,9 @@ def run_case(case):
                     vios.append(dict(sig="value:sampler", tags=tags, detail="sampler at t=%g gives %s, the polynomial of integrator step %d gives %s" % (tq, np.round(got, 6), i, np.round(want, 6)))); break
             # a second sampler: the control of the interval that contains the query time, time itself, their product with
             # the state polynomial (query times strictly inside integrator steps: no ambiguity at the nodes)
-            if d["control"] != "none":
+            if d["control"] != "none" and np.all(np.diff(ti) > 1e-9):
+                # (free / localized grids: a generic decision vector need not order the nodes; the interval that
+                # contains a query time is only defined on an increasing grid)
                 u0 = ca.vec(s["u"])[0]
                 smp2 = st.sampler(ca.vertcat(u0, st.t, u0 * x[0] + st.t))
                 Uq = np.array(ca.Function("u", [nlp.x, nlp.p], [st.sample(u0, grid="control-")[1]])(w, nlp.p0)).reshape(-1)
